@@ -758,12 +758,29 @@ func (h *history) interlope(inflight *TxnSpec, reserved []uint32) {
 	}
 	opts := h.cfg.Txn
 	opts.PDelete, opts.PKeyOps, opts.PFailInsert, opts.PAbort, opts.MaxOps = 0, 0, 0, 0, 2
-	if m.KeyCol != "" {
-		opts.PInsert = 0 // keyed creators would race with the in-flight transaction's keys (KF-KEY-CHECK-THEN-ACT)
+	// keys the in-flight transaction works with: another client creating one of them now would be the
+	// two-transaction form of KF-KEY-CHECK-THEN-ACT (probed by the E2 key scenarios), so it uses other keys
+	inflightKeys := map[string]bool{}
+	for _, o := range inflight.Ops {
+		if o.Key != "" || o.T == "inskey" || o.T == "upskey" {
+			inflightKeys[o.Key] = true
+		}
+		for _, w := range o.W {
+			if w.Col == m.KeyCol {
+				inflightKeys[w.V.S] = true
+			}
+		}
 	}
 	t2 := h.g.genTxn(m, live, opts)
 	var kept []Op
 	for _, o := range t2.Ops {
+		if o.T == "inskey" || o.T == "upskey" {
+			off, exists := m.keyOffset(o.Key)
+			if !inflightKeys[o.Key] && !(exists && (busy[off] || o.T == "inskey")) {
+				kept = append(kept, o)
+			}
+			continue
+		}
 		if o.T == "at" || o.T == "ins" {
 			// boundary: no creating / re-keying key operation beside an in-flight transaction
 			// (two-transaction form of KF-KEY-CHECK-THEN-ACT, probed by the E2 key scenarios)
@@ -796,7 +813,7 @@ func (h *history) interlope(inflight *TxnSpec, reserved []uint32) {
 		return
 	}
 	for _, o := range t2.Ops {
-		if o.T == "ins" && o.HasOff {
+		if (o.T == "ins" || o.Created) && o.HasOff {
 			for _, r := range reserved {
 				if r == o.GotOff && h.cfg.Oracles["live"] {
 					h.violate("insert", fmt.Sprintf("insert of another client received offset %d which the in-flight transaction %s holds", r, inflight.String()), "")
@@ -806,6 +823,9 @@ func (h *history) interlope(inflight *TxnSpec, reserved []uint32) {
 				h.violate("insert", fmt.Sprintf("insert of another client received offset %d which is occupied by a live row", o.GotOff), "")
 			}
 		}
+	}
+	if h.failed {
+		return
 	}
 	m.Apply(t2.Ops)
 	h.dirtyBefore = true
@@ -1186,6 +1206,11 @@ func (h *history) restoreCycle(swap bool) {
 		return
 	}
 	h.wd.closed = append(h.wd.closed, h.wd.P)
+	if h.wd.T != nil {
+		// the twin never went through a restore: from here on its allocator state may legitimately differ
+		h.wd.closed = append(h.wd.closed, h.wd.T)
+		h.wd.T = nil
+	}
 	h.wd.P = c
 	h.wd.Cap = capacity
 	h.wd.Log = lg
